@@ -159,6 +159,43 @@ def dec(x):
     raise ValueError('bad node head %r' % (head,))
 
 
+# ---------------------------------------------------------------- non-string column keys (C01 / C06 / C11)
+
+def key_name(k):
+    """a column key as the table models name it: a string is its own name, any other key (float, datetime, None - the keys pivot makes of y values) is
+    U+0000 + its wire atom (a NaN key of any identity / numpy type: U+0000 F:nan).  String names never start with U+0000."""
+    if isinstance(k, float) and k != k:
+        return '\x00F:nan'
+    return k if isinstance(k, str) else '\x00' + enc(k)
+
+
+def name_key(s):
+    """inverse of key_name: the python column key a wire name stands for"""
+    return dec_cell(s[1:]) if isinstance(s, str) and s[:1] == '\x00' else s
+
+
+def enck(v):
+    """enc for values read off a table whose column keys may be non-strings: dict keys go through key_name"""
+    if isinstance(v, dict):
+        return '(D' + ''.join(' (%s %s)' % (hexs(str(k) if isinstance(k, int) else key_name(k)), enck(x)) for k, x in v.items()) + ')'
+    if isinstance(v, list):
+        return '(L' + ''.join(' ' + enck(x) for x in v) + ')'
+    if isinstance(v, tuple):
+        return '(T' + ''.join(' ' + enck(x) for x in v) + ')'
+    return enc(v)
+
+
+def deck(x):
+    """dec for tables whose column names may be tagged: dict keys go through name_key, and so does every string that starts with U+0000 (no cell does:
+    such a string is a column name in a header, a key list or a column argument)"""
+    if isinstance(x, list) and x and x[0] == 'D':
+        return {name_key(unhex(kv[0])): deck(kv[1]) for kv in x[1:]}
+    if isinstance(x, list) and x and x[0] in ('L', 'T'):
+        r = [deck(y) for y in x[1:]]
+        return r if x[0] == 'L' else tuple(r)
+    return name_key(dec(x))
+
+
 # ---------------------------------------------------------------- canonical comparison
 
 def canon_cell(a, numeric=True):
